@@ -31,6 +31,8 @@ type kase struct {
 	Seq     bool   `json:"sequence,omitempty"`
 	// Concurrent: several goroutines call Diff at the same time
 	Concurrent bool `json:"concurrent,omitempty"`
+	// Consumer: a script whose failing cmp / cmpenv logs the diff
+	Consumer *consumerCase `json:"consumer,omitempty"`
 }
 
 // concurrentProbe: Diff has no documented shared state, so concurrent callers
@@ -403,6 +405,12 @@ func main() {
 		if c.Seq {
 			return checkSequence(c.Old, c.New, c.NextOld, c.NextNew)
 		}
+		if c.Consumer != nil {
+			if v := runConsumer(os.Getenv("VERIF_SCRATCH"), []consumerCase{*c.Consumer})[0]; v != "" {
+				return []kit.V{{Key: consumerKey(v, *c.Consumer), What: v, Case: c}}
+			}
+			return nil
+		}
 		if c.Concurrent {
 			if v := concurrentProbe(); v != nil {
 				return []kit.V{*v}
@@ -545,6 +553,9 @@ func main() {
 			patchStride(r, fam, int64(pick(20011, 9973)))
 		}
 	}
+	cs, cd := consumerPass(r, os.Getenv("VERIF_SCRATCH"), pick(2, 3))
+	r.Set("scripts_whose_cmp_or_cmpenv_was_judged", cs)
+	r.Set("of_which_logged_a_diff_that_was_applied", cd)
 	r.Set("evaluations", evals)
 	r.Set("distinct_nontrivial", unequal)
 	r.Set("rule", "every ordered pair of each family (families overlap only in tiny texts); non-trivial = old != new, counted")
